@@ -611,24 +611,24 @@ def e2e_options(ck, cases, impl):
                              "cbo.go's standard-library modules %s may disappear (expected %s)" % (cli, ic["deps"], sorted(stdn), want),
                              {"kind": "e2e-include-imports", "toml": "[cbo] include_imports = false", "source": cg.file_src(f, c), "cli": cl, "driver_default": ic})
     # --- [analysis] exclude_patterns are FILE patterns: a class or dependency whose NAME matches one is still a class / a dependency
-    f = dict(imports=[("from", "DepA"), ("from", "Other")], classes=[])
-    k_cls = dict(name="K", bases=[("", "DepA")], members=[("attr", "x", ("ref", ("", "Other"))),
+    f = dict(imports=[("from", "DepA"), ("from", "Other"), ("from", "Exact")], classes=[])
+    k_cls = dict(name="K", bases=[("", "DepA")], members=[("attr", "x", ("ref", ("", "Other"))), ("attr", "y", ("gen1", "List", ("ref", ("", "Exact")))),
                                                          ("method", dict(name="run", decos=[], params=[], ret=None, body=[(("inst", ("", "DepA")), "PReturnValue")]))])
     l_cls = dict(name="DepLocal", bases=[("", "Other")], members=[])
     src = cg.file_src(f, k_cls) + "\n\n" + "\n".join(cg.class_src(l_cls)) + "\n"
-    toml = "[cbo]\nshow_zeros = true\n[analysis]\nexclude_patterns = [\"Dep*\", \"test_*.py\"]\n"
+    toml = "[cbo]\nshow_zeros = true\n[analysis]\nexclude_patterns = [\"Dep*\", \"Exact\", \"test_*.py\"]\n"
     got = cli_classes(ck, lib.fresh_dir("c13_e2e_excl"), toml, {"shapes.py": src})
     if got is not None:
         n += 2
         seen = {name: sorted(cl["Metrics"]["DependentClasses"] or []) for (_, name), cl in got.items()}
-        want = {"K": ["DepA", "Other"], "DepLocal": ["Other"]}
+        want = {"K": ["DepA", "Exact", "Other"], "DepLocal": ["Other"]}
         if seen != want:
-            dropped_only = seen == {"K": ["Other"]}       # everything matching Dep* gone, the rest intact
+            dropped_only = seen == {"K": ["Other"]}       # everything matching Dep* or named Exact gone, the rest intact
             e = ck.match_known({"class": "analysis-exclude-patterns-on-class-names", "only_matching_names_dropped": dropped_only})
             if e:
                 ck.known_finding(e)
             else:
-                ck.violation("[analysis] exclude_patterns = [\"Dep*\"] (file patterns; shapes.py does not match): pyscn analyze reports %s, the classes name %s" % (seen, want),
+                ck.violation("[analysis] exclude_patterns = [\"Dep*\", \"Exact\"] (file patterns; shapes.py does not match): pyscn analyze reports %s, the classes name %s" % (seen, want),
                              {"kind": "e2e-exclude-patterns", "toml": toml, "source": src, "cli": got and {"%s:%s" % k: v for k, v in got.items()}})
     return n
 
